@@ -906,7 +906,7 @@ func crashes(c *vk.C, dir string) {
 	var jobs []job
 
 	segment := 24
-	nJobs := c.N(16, 900)
+	nJobs := c.N(10, 900)
 
 	for j := 0; j < nJobs; j++ {
 		jb := job{marshaler: marshalers[j%len(marshalers)], seed: uint64(c.Seed)*1000 + uint64(j)}
@@ -926,7 +926,7 @@ func crashes(c *vk.C, dir string) {
 	// exact crash points relative to the store call: the worker kills itself right before / after its n-th backing-store Put /
 	// Destroy ("store not asked yet" / "store committed, memory and caller not told"), n enumerated
 	points := []string{"SELF-beforePut", "SELF-afterPut", "SELF-beforeDestroy", "SELF-afterDestroy"}
-	nSelf := c.N(4, 24)
+	nSelf := c.N(3, 24)
 
 	for pi, pt := range points {
 		for n := 0; n < nSelf; n++ {
@@ -947,7 +947,7 @@ func crashes(c *vk.C, dir string) {
 	// death inside a bbolt commit: SIGKILL injected by the kernel-side tracer on entry to the n-th pwrite64 / fdatasync of a thread;
 	// and a bbolt-internal rejection: the n-th pwrite64 fails with EIO (no death; the operation must fail and leave no trace)
 	if _, err := exec.LookPath("strace"); err == nil {
-		nTrace := c.N(3, 40)
+		nTrace := c.N(2, 40)
 
 		for _, kind := range []string{"STRACE-pwrite64", "STRACE-fdatasync", "STRACEERR-pwrite64"} {
 			for n := 0; n < nTrace; n++ {
